@@ -1,0 +1,16 @@
+//go:build verif
+
+package NoKV
+
+// Accessors for the verification harness (/verif). Compiled only with -tags verif.
+
+// VerifApplyThrottle toggles the L0 write throttle as the LSM callback does.
+func (db *DB) VerifApplyThrottle(on bool) { db.applyThrottle(on) }
+
+// VerifOracleState reports nextTxnTs, txnMark.DoneUntil(), txnMark.LastIndex() and readMark.DoneUntil().
+func (db *DB) VerifOracleState() (next, txnDone, txnLast, readDone uint64) {
+	return db.orc.nextTxnTs.Load(), db.orc.txnMark.DoneUntil(), db.orc.txnMark.LastIndex(), db.orc.readMark.DoneUntil()
+}
+
+// VerifCommitQueueClosed reports whether the commit queue was closed.
+func (db *DB) VerifCommitQueueClosed() bool { return db.commitQueue.closed == 1 }
